@@ -531,9 +531,6 @@ func skewedImmunizeBatches() [][]string {
 				for i := 0; i < 16; i++ {
 					h = append(h, fmt.Sprintf("hoa %s cc%02x 5", b[1+i], i), fmt.Sprintf("hoa %s dd%02x 5", a[nSkew+i], i))
 				}
-				for _, k := range batch {
-					h = append(h, "get "+k)
-				}
 				hs = append(hs, h)
 			}
 		}
